@@ -856,6 +856,9 @@ def merge_scenario(rng, extra=6):
                 ops.append(['add_link', g, mine[i], rng.choice(RELS), mine[i + 1], gen_props(rng, pmax=1) or None])
         if rng.random() < 0.5:
             ops.append(['add_link', g, mine[0], rng.choice(RELS), mine[-1], None])
+    selfl = [n for n in ids[1:3] if rng.random() < 0.35]
+    for n in selfl:                       # a self-link on a node that will be absorbed (or on the survivor)
+        ops.append(['add_link', rng.choice([ga, gb]), n, rng.choice(RELS), n, gen_props(rng, pmax=1) or None])
     for op in ops:
         sh.apply(op)
     ops.append(['matching', ga, gb])
@@ -867,6 +870,8 @@ def merge_scenario(rng, extra=6):
             pol = {p: rng.choices(POLICIES, [4, 3, 3, 1])[0] for p in rng.sample(PROPS + ['Name'], rng.randrange(1, 3))}
         ops.append(['merge', ga, n, gb, pol])
         ops.append(['get_node', ga, n])
+        if n in selfl:
+            ops.append(['get_link', ga, n, n])
     ops.append(['get_link', ga, ids[1], ids[2]])
     kinds = [k for k in DEFAULT_WEIGHTS]
     ws = [DEFAULT_WEIGHTS[k] for k in kinds]
